@@ -64,7 +64,7 @@ theorem sorted_facts (xs : List Nat) (hne : xs ≠ []) :
 
 /-- the percentile index used by `varintPFORComputeThreshold` -/
 def thrIdx (n t : Nat) : Nat :=
-  if (n * t) % 2 ^ 32 / 100 ≥ n then n - 1 else (n * t) % 2 ^ 32 / 100
+  if (n * t) / 100 ≥ n then n - 1 else (n * t) / 100
 
 theorem thrIdx_lt {n : Nat} (t : Nat) (h : 0 < n) : thrIdx n t < n := by
   unfold thrIdx
